@@ -60,6 +60,17 @@ class Current(pd.Series):
     # Allow for right addition as well.
     __radd__ = __add__
 
+    def __mul__(self, other):
+        """ Return new Current which is self scaled by the scalar other.
+
+        Returns:
+            Current: self * other
+        """
+        return Current(super().__mul__(other))
+
+    # Allow for left multiplication by a scalar as well.
+    __rmul__ = __mul__
+
     def __sub__(self, other):
         """ Return Current which is self minus other.
 
